@@ -1,5 +1,23 @@
--- Root of the PysphVerif library: models, drivers, lemmas and property theorems.
+-- Root of the PysphVerif library: models, lemmas and property theorems
+-- (drivers are separate executables: lake build model_cXX).
 import PysphVerif.Model.Wire
-import PysphVerif.Model.AdaptDt
-import PysphVerif.Driver.C19
+import PysphVerif.Props.C01
+import PysphVerif.Props.C02
+import PysphVerif.Props.C03
+import PysphVerif.Props.C04
+import PysphVerif.Props.C05
+import PysphVerif.Props.C06
+import PysphVerif.Props.C07
+import PysphVerif.Props.C08
+import PysphVerif.Props.C09
+import PysphVerif.Props.C10
+import PysphVerif.Props.C11
+import PysphVerif.Props.C12
+import PysphVerif.Props.C13
+import PysphVerif.Props.C14
+import PysphVerif.Props.C15
+import PysphVerif.Props.C16
+import PysphVerif.Props.C17
+import PysphVerif.Props.C18
 import PysphVerif.Props.C19
+import PysphVerif.Props.C20
